@@ -15,7 +15,7 @@ Judge(o) ==
     \cup (IF ~o.stuck /\ ~o.reqok THEN {"C16.RequestsInOrder"} ELSE {})
     \cup (IF ~o.stuck /\ ~o.respok THEN {"C16.RepliesInOrder"} ELSE {})
     \* each forwarded reply was made visible before the next request was needed: at least one flush per round
-    \cup (IF ~o.stuck /\ ~o.same /\ o.flushes < o.scn.rounds THEN {"C16.FlushPerMessage"} ELSE {})
+    \cup (IF ~o.stuck /\ ~o.same /\ o.flushes < (IF o.scn.method = "CStream" THEN 1 ELSE o.scn.rounds) THEN {"C16.FlushPerMessage"} ELSE {})
 
 Init == i = 1 /\ nbad = 0
 Consume ==
